@@ -93,10 +93,11 @@ func newWorld() *world {
 
 // chain implements the pool's blockChain interface over the scripted heads.
 type chain struct {
-	w    *world
-	mu   sync.Mutex
-	head *types.Block
-	feed event.Feed
+	w     *world
+	mu    sync.Mutex
+	head  *types.Block
+	feed  event.Feed
+	extra map[common.Hash]*types.Block // blocks built during one run (orphan witness)
 }
 
 func (c *chain) CurrentBlock() *types.Block {
@@ -104,7 +105,12 @@ func (c *chain) CurrentBlock() *types.Block {
 	defer c.mu.Unlock()
 	return c.head
 }
-func (c *chain) GetBlock(h common.Hash, n uint64) *types.Block { return c.w.blocks[h] }
+func (c *chain) GetBlock(h common.Hash, n uint64) *types.Block {
+	if b := c.extra[h]; b != nil {
+		return b
+	}
+	return c.w.blocks[h]
+}
 func (c *chain) StateAt(root common.Hash) (*state.StateDB, error) {
 	return state.New(root, state.NewDatabase(c.w.env.GenDB))
 }
